@@ -366,7 +366,10 @@ class ScipyMinimizeAlgorithm(
         for ip, ip_val in ips.items():
             state[ip] = ip_val
         loss = state["nll_attach"] + self.regularity_factor * state["nll_regul_ind_sum"]
-        return loss.item()
+        loss_value = loss.item()
+        # an undefined objective (e.g. inf * 0 far away from the optimum) must repel the line searches:
+        # with NaN scipy gives up and returns NaN estimates
+        return float("inf") if np.isnan(loss_value) else loss_value
 
     def obj_with_jac(
         self, x: np.ndarray, state: State, scaling: _AffineScalings1D
